@@ -102,7 +102,8 @@ InitSt == [ conn  |-> {},                          \* peers with a connection (S
             \* ghosts: number of registry insertions so far (capped).  No outcome depends on them; they only keep
             \* states with a different insertion history apart, so that the transition cover also reaches the
             \* hidden state of the code (id counters, slice capacity) behind one abstract registry value
-            nsub  |-> 0, nbind |-> 0 ]
+            nsub  |-> 0, nbind |-> 0,
+            nfire |-> 0 ]                          \* ghost: steps in which callbacks fired so far (capped)
 
 Discovered(st, p) == p \in st.conn /\ p \in st.addr
 \* the device address of a peer is known after its first discovery reply
@@ -144,7 +145,7 @@ Ev(t, chg, p, e, c, s) == [t |-> t, chg |-> chg, p |-> p, e |-> e, c |-> c, s |-
 \* cbf: callbacks invoked by the step, [k, cb, kind, h, good] (good: called with the received data and the
 \* originating remote feature)
 Outcome(st, out, ev, ret, dev) == [st |-> st, out |-> out, ev |-> ev, ret |-> ret, dev |-> dev, cbf |-> {}]
-WithCbf(o, cbf) == [o EXCEPT !.cbf = cbf]
+WithCbf(o, cbf) == [o EXCEPT !.cbf = cbf, !.st.nfire = IF cbf # {} /\ @ < GhostCap THEN @ + 1 ELSE @]
 Ideal == "ideal"
 
 ---------------------------------------------------------------------------
@@ -538,9 +539,10 @@ CliArgs(k) == IF R(k) THEN {"c11", "c12", "c13", "s14", "c21", "x19", "x91"}
               ELSE IF k \in Tiny THEN {"c11", "c12"} ELSE {"c11", "c12", "c21"}
 SrvArgs(k) == IF R(k) THEN {"S1", "S2", "S3", "S4", "K1", "NM", "X19", "X91"}
               ELSE IF k \in Tiny THEN {"S1", "S2"} ELSE {"S1", "S2", "S3"}
-\* requested type: the server feature's own type, or (rich) a wrong one
+\* requested type: the server feature's own type, or (rich) a wrong one - a type nobody has, or the type of other
+\* features of the catalogue (so that the client may be of the declared type while the server is not)
 FtArgs(k, s) == LET own == IF s \in LocalNames THEN LF[s].type ELSE "LoadControl"
-                IN IF R(k) THEN {own, "Measurement"} ELSE {own}
+                IN IF R(k) THEN {own, "Measurement", "LoadControl", "DeviceConfiguration"} ELSE {own}
 
 \* dev / sdev: device part of the client / server address given ("own") or omitted ("omit"):
 \* SPINE 7.4.4 - an absent device part stands for the sender's resp. recipient's device
@@ -629,7 +631,7 @@ Inputs(st) ==
     \* C20: use cases over 2 entities x 2 actors x 2 names (re-adding an existing name, removing unknown ones included)
     \cup On("adduc",  {[a |-> "adduc", e |-> e, actor |-> ac, name |-> n, ver |-> v, av |-> av, sc |-> sc] :
                          e \in UcEnts, ac \in UcActors, n \in UcNames, v \in (IF R("adduc") THEN {"1.0.0", "2.0.0"} ELSE {"1.0.0"}),
-                         av \in BOOLEAN, sc \in (IF R("adduc") THEN {"1", "1,2"} ELSE {"1"})})
+                         av \in BOOLEAN, sc \in (IF R("adduc") THEN {"1", "1,2", ""} ELSE {"1"})})       \* ("": no scenario given)
     \cup On("remuc",  {[a |-> "remuc", e |-> e, actor |-> ac, name |-> n] : e \in UcEnts, ac \in UcActors, n \in UcNames})
     \cup On("setav",  {[a |-> "setav", e |-> e, actor |-> ac, name |-> n, av |-> av] : e \in UcEnts, ac \in UcActors, n \in UcNames, av \in BOOLEAN})
     \cup On("remall", {[a |-> "remall", e |-> e] : e \in UcEnts})
